@@ -66,10 +66,10 @@ const progStdin = "c1,c2\n1,a\n2,b\n"
 
 var fmtFlags = []string{"", "", "+", "-", " ", "0", "#"}
 var fmtWidths = []string{"", "", "0", "1", "5", "12", "100000"}
-var fmtPrecisions = []string{"", "", ".", ".0", ".1", ".2", ".5", ".20", ".100000"}
+var fmtPrecisions = []string{"", "", ".", ".0", ".1", ".2", ".5", ".20", ".100000", ".3", ".4", ".7", ".12", ".25", ".29", ".31", ".50", ".100", ".119", ".30000"}
 var fmtVerbs = []string{"b", "o", "d", "x", "X", "e", "E", "f", "s", "q", "i", "T", "s", "s", "c", "v", "g", "U", "n", "*", "あ", ""}
 var fmtLiterals = []string{"", "abc", "あ", " ", "%%", "%%%%", "\\n", "100%%"}
-var fmtArgs = []bval{{"'ab'", "short"}, {"'a'", "one_char"}, {"''", "empty"}, {"'あいう'", "wide"}, {"'é'", "accent"}, {"NULL", "null"}, {"1", "one"}, {"-1", "neg"}, {"0.5", "frac"}, {"1e308", "f_huge"}, {"FLOAT('NaN')", "nan"}, {"FLOAT('-Inf')", "neginf"},
+var fmtArgs = []bval{{"'ab'", "short"}, {"'a'", "one_char"}, {"''", "empty"}, {"'あいう'", "wide"}, {"'é'", "accent"}, {"'あいうえおかきくけこ'", "wide10"}, {"'" + strings.Repeat("あ", 40) + "'", "wide40"}, {"'" + strings.Repeat("é", 70) + "'", "accent70"}, {longWide, "long_wide"}, {"'aあ'", "mixed_width"}, {"'éééééééééééé'", "accent12"}, {"NULL", "null"}, {"1", "one"}, {"-1", "neg"}, {"0.5", "frac"}, {"1e308", "f_huge"}, {"FLOAT('NaN')", "nan"}, {"FLOAT('-Inf')", "neginf"},
 	{"9223372036854775807", "i64max"}, {"TRUE", "bool"}, {"UNKNOWN", "ternary"}, {"DATETIME('2012-02-03 09:18:15')", "datetime"}, {"'abcdefghijklmnopqrstuvwxyz'", "text26"}, {"'a''b'", "quote"}, {"'a`b'", "backquote"}}
 
 // genFormatString builds a format string from the specifier grammar and
